@@ -922,7 +922,45 @@ pub fn fixed_histories() -> Vec<Vec<Ev>> {
     let x = BASE + 1;
     let y = BASE + 9;
     let z = BASE + 2;
+    // a REQUEST through the real handler (default lease bounds 300 s .. 24 h)
+    let h = |client: &[u8], pool: &[u32]| Ev::Alloc {
+        via: 2,
+        cidmode: 1,
+        reqmode: 0,
+        alt: 0,
+        client: client.to_vec(),
+        req: None,
+        pool: pool.to_vec(),
+        tmin: 300,
+        tmax: 86400,
+        lost: false,
+        locked: false,
+    };
     vec![
+        // the renewal ladder: a client that always renews just before its lease ends is told about three
+        // times the time it has held the address, so six renewals take it from 5 minutes to beyond a day --
+        // where the upper bound must hold it (the random histories rarely get that far)
+        vec![
+            h(b"ladder", &[x, z]),
+            Ev::Tick(299),
+            h(b"ladder", &[x, z]),
+            Ev::Tick(896),
+            h(b"ladder", &[x, z]),
+            Ev::Tick(3584),
+            h(b"ladder", &[x, z]),
+            Ev::Tick(14336),
+            h(b"ladder", &[x, z]),
+            Ev::Tick(57344),
+            h(b"ladder", &[x, z]),
+            Ev::Tick(80000),
+            h(b"ladder", &[x, z]),
+            Ev::Tick(90000),
+            h(b"ladder", &[x, z]),
+            Ev::Tick(100000),
+            h(b"ladder", &[x, z]),
+            Ev::Tick(50000),
+            h(b"ladder", &[x, z]),
+        ],
         // two leases, pool shrinks to {x, z}: must get x back
         vec![a(b"c1", None, &[x]), Ev::Tick(10), a(b"c1", None, &[y]), Ev::Tick(10), a(b"c1", None, &[x, z])],
         // same, pool = {x} only: refusing would be wrong, x is the client's own
